@@ -133,7 +133,9 @@ class Interp:
 
     MAX_PATHS = 512
 
-    def __init__(self, fn, run_attr='run', unroll=(0, 2), resolver=None, module_const=None, max_paths=None, assume=None):
+    def __init__(self, fn, run_attr='run', unroll=(0, 2), resolver=None, module_const=None, max_paths=None, assume=None,
+                 class_const=None):
+        self.class_const = class_const      # class_const(attr) -> constant expression assigned at class level, or None
         # assume(test node) -> True / False for tests whose outcome is fixed by an invariant established elsewhere, else None
         self.assume = assume
         # resolver(call) -> (helper FunctionDef, skip_first_param) for private helpers of the same class / module, or None
@@ -442,7 +444,14 @@ class Interp:
             return Atom('global:' + e.id)
         if isinstance(e, ast.Attribute):
             base = e.value
-            if isinstance(base, ast.Name) and base.id == 'self':
+            if isinstance(base, ast.Name) and base.id in ('self', 'cls'):
+                if self.class_const is not None:
+                    ce = self.class_const(e.attr)
+                    if ce is not None and isinstance(ce, (ast.Constant, ast.JoinedStr, ast.BinOp)):
+                        try:
+                            return self._expr(ce, {})
+                        except AnalysisError:
+                            pass
                 return Atom('attr:self.' + e.attr)
             bv = self._expr(base, env)
             if isinstance(bv, (Atom, Opaque)):
